@@ -78,6 +78,13 @@ KindProgs == <<
   <<MacroDef("m", 1, <<TRUE>>, FALSE), [t |-> "if", conds |-> <<Call("m", <<>>)>>, bodies |-> << <<T(<<"yes">>)>>, <<T(<<"no">>)>> >>]>>,
   <<MacroDef("m", 0, <<>>, FALSE), Out(Call("m", <<>>)), Out(Call("m", <<>>)), Out(Call("nosuch", <<Lit(I(1))>>))>>,
   <<MacroDef("m", 1, <<FALSE>>, FALSE), [t |-> "autoescape", on |-> FALSE, body |-> <<Out(Call("m", <<Var(<<"mk">>)>>))>>]>>,
+  \* the result is markup whatever autoescape mode its body ran under: kept from an `autoescape off` region and printed after it,
+  \* and called under `autoescape on` from a definition made under `off`
+  <<MacroDef("m", 1, <<FALSE>>, FALSE), [t |-> "autoescape", on |-> FALSE, body |-> <<[t |-> "set", name |-> "r", e |-> Call("m", <<Var(<<"mk">>)>>)]>>], T(<<"[">>), Out(Var(<<"r">>)), T(<<"]">>)>>,
+  \* (which mode the body of a macro runs under when call site and definition site sit in different scopes with different modes is not
+  \*  settled by the statement - the engine takes the mode of the defining scope - and is not generated)
+  <<[t |-> "autoescape", on |-> FALSE, body |-> <<MacroDef("m", 1, <<FALSE>>, FALSE)>>],
+    [t |-> "for", key |-> "i", val |-> "", e |-> Var(<<"l2">>), rev |-> FALSE, sorted |-> FALSE, body |-> <<Out(Call("m", <<Var(<<"mk">>)>>))>>, empty |-> <<>>]>>,
   <<[t |-> "set", name |-> "outer", e |-> Lit(S(<<"s">>))], MacroDef("m", 2, <<FALSE, TRUE>>, FALSE), Out(Call("m", <<Lit(I(1))>>)),
     [t |-> "set", name |-> "outer", e |-> Lit(S(<<"t">>))], Out(Call("m", <<Lit(I(1))>>))>>
 >>
